@@ -580,6 +580,9 @@ vf::Result check_frame(const Frm& f) {
         unsigned rn = (unsigned)s.below(8);
         st[flat::F_arrn + idx] = rn;
         st[flat::F_r + rn] = ptr;
+        // the frame pointer moves by plain +-1 whatever addressing mode its register is configured for (modulo, bit reversal)
+        st[flat::F_br + rn] = s.bits(1);
+        st[flat::F_m + rn] = s.bits(1);
         c.opcode = W("bkrepsto(ArRn2)", {(long)idx});
         c.expansion = W("bkreprst(ArRn2)", {(long)idx});
     }
@@ -603,6 +606,12 @@ vf::Result check_frame(const Frm& f) {
     want[flat::F_pc] = st[flat::F_pc] + (clobber ? 4 : 2);
     if (clobber)
         vf::klass("frame round trip with the counter overwritten in between");
+    for (auto& wv : r.writes)
+        if (wv.first < 0x20000u + (uint16_t)(ptr - 4) || wv.first > 0x20000u + (uint16_t)(ptr - 1))
+            return vf::Result::fail("C09:frame:" + std::string(via_sp ? "sp" : "arrn") + ":cells", "bkrepsto with the pointer at " + vf::hex(ptr) + " wrote data word " +
+                                                                                                   vf::hex(wv.first - 0x20000u) + " (the frame occupies the four words below the pointer)");
+    if (!via_sp && (st[flat::F_br + st[flat::F_arrn + idx]] || st[flat::F_m + st[flat::F_arrn + idx]]))
+        vf::klass("frame pointer register configured for modulo / bit-reversed addressing");
     if (!(r.after == want))
         return vf::Result::fail("C09:frame:" + std::string(via_sp ? "sp" : "arrn") + ":" + flat::diff(r.after, want).substr(0, flat::diff(r.after, want).find(':')),
                                 "bkrepsto ; bkreprst with " + std::to_string(depth) + " active frame(s) is not the identity (got vs expected) " +
